@@ -335,7 +335,11 @@ func (m *Module) AssignGlobalIDs() error {
 				got := n.ID()
 				return errors.Errorf("invalid global ID, expected %s, got %s", enc.GlobalID(want), enc.GlobalID(got))
 			}
-			n.SetID(id)
+			if n.ID() != id {
+				// Write only when the ID changes: IDs that are already assigned are
+				// read by concurrent printers without holding the lock.
+				n.SetID(id)
+			}
 			id++
 		}
 		return nil
